@@ -573,6 +573,26 @@ def judge_dry(box, w, exp, rc, out, events, before, stats):
 
 
 def run_case(box, sc, stats, patrn):
+    """One case; a violation is reported only if it reproduces on two further executions of the same scenario (DESIGN.md 1:
+    'replayed 3x'); otherwise it is counted as inconclusive/unreproducible and its message kept in the evidence."""
+    v = run_case_once(box, sc, stats, patrn)
+    if v is None:
+        return None
+    for _ in range(2):
+        v2 = run_case_once(box, sc, vlib.Stats(), patrn)
+        if v2 is None:
+            stats.inconclusive += 1
+            stats.cls("unreproducible")
+            stats.extra["unreproducible_example"] = v[:1500]
+            dbg = os.environ.get("VERIF_DEBUGLOG")
+            if dbg:
+                with open(dbg, "a") as f:
+                    f.write("C13 unreproducible: %s\n" % v)
+            return None
+    return v
+
+
+def run_case_once(box, sc, stats, patrn):
     w = World(sc)
     for s in (w.user, w.local, w.dash, w.ext, w.host, w.sender, w.dd):
         if "\0" in s:
